@@ -73,6 +73,7 @@ impl PartialEq for Value {
                         true
                     }
                 }
+                Value::ArgList(list2) => arglist_eq_list(list2, list1, *sep1, *brackets1),
                 _ => false,
             },
             Value::Null => matches!(other, Value::Null),
@@ -101,23 +102,24 @@ impl PartialEq for Value {
             }
             Value::ArgList(list1) => match other {
                 Value::ArgList(list2) => list1 == list2,
-                Value::List(list2, ListSeparator::Comma, ..) => {
-                    if list1.len() != list2.len() {
-                        return false;
-                    }
-
-                    for (el1, el2) in list1.elems.iter().zip(list2) {
-                        if el1 != el2 {
-                            return false;
-                        }
-                    }
-
-                    true
+                Value::List(list2, sep2, brackets2) => {
+                    arglist_eq_list(list1, list2, *sep2, *brackets2)
                 }
                 _ => false,
             },
         }
     }
+}
+
+/// An argument list is equal to the unbracketed list of its positional arguments,
+/// whichever side of `==` it is on
+fn arglist_eq_list(
+    arglist: &ArgList,
+    list: &[Value],
+    separator: ListSeparator,
+    brackets: Brackets,
+) -> bool {
+    brackets == Brackets::None && arglist.separator == separator && arglist.elems == list
 }
 
 impl Eq for Value {}
